@@ -148,7 +148,16 @@ def rule_window(ctx):
         sides = (side_of(ss_l), side_of(ss_u))
     else:
         raise AnalysisError("__find_hits: expected searchsorted(sorted, [s_l, s_u]) or one searchsorted call per bound")
-    dots = {norm(n_).replace(" ", "") for b_ in (sl_e, su_e) for n_ in ast.walk(b_) if isinstance(n_, ast.Call) and (dotted(n_.func) or "").split(".")[-1] == "dot"}
+    # a round-off allowance (a product with the machine epsilon) may widen the window: it is one non-negative term, not a projection
+    def is_slack(n_):
+        return isinstance(n_, ast.BinOp) and isinstance(n_.op, ast.Mult) and any(isinstance(x_, ast.Attribute) and x_.attr == "eps" for x_ in ast.walk(n_)) \
+            and not isinstance(parent(n_), ast.BinOp) or (isinstance(n_, ast.BinOp) and isinstance(n_.op, ast.Mult) and any(isinstance(x_, ast.Attribute) and x_.attr == "eps" for x_ in ast.walk(n_))
+                                                          and isinstance(parent(n_), ast.BinOp) and not isinstance(parent(n_).op, ast.Mult))
+    from ..core import clone as _clone
+    sl_e, su_e = _clone(sl_e), _clone(su_e)
+    in_slack = {id(x_) for b_ in (sl_e, su_e) for n_ in ast.walk(b_) if is_slack(n_) for x_ in ast.walk(n_)}
+    dots = {norm(n_).replace(" ", "") for b_ in (sl_e, su_e) for n_ in ast.walk(b_) if isinstance(n_, ast.Call) and (dotted(n_.func) or "").split(".")[-1] == "dot"
+            and id(n_) not in in_slack}
     obs_forms = ("np.dot(self.pc1,(%s-self.y_mean).ravel())" % yo, "np.dot(self.pc1,%s-self.y_mean)" % yo, "np.dot((%s-self.y_mean).ravel(),self.pc1)" % yo,
                  "np.dot(%s-self.y_mean,self.pc1)" % yo)
     if not dots:
@@ -160,8 +169,12 @@ def rule_window(ctx):
     X2, E = sp.symbols("x2 e", positive=True)
     Yp = sp.Symbol("yp", real=True)
 
+    TOL = sp.Symbol("tol", nonnegative=True)
+
     def term(n):
         t = norm(n)
+        if is_slack(n):
+            return TOL
         if t == x2:
             return X2
         if t == "self.pc1_e":
@@ -187,10 +200,12 @@ def rule_window(ctx):
         sides = (sides[1], sides[0])
         hl = sp.simplify(Yp - term(sl_e))
         hu = sp.simplify(term(su_e) - Yp)
-    # h^2 = c * x2 * lambda with lambda = 1/E
-    cl = sp.simplify(hl ** 2 * E / X2)
-    cu = sp.simplify(hu ** 2 * E / X2)
-    ok_h = cl.is_number and cu.is_number and cl >= 1 and cu >= 1 and hl.is_positive and hu.is_positive
+    # h^2 = c * x2 * lambda with lambda = 1/E; a round-off allowance may only widen the window
+    widen = sp.simplify(hl - hl.subs(TOL, 0)).is_nonnegative and sp.simplify(hu - hu.subs(TOL, 0)).is_nonnegative
+    hl0, hu0 = hl.subs(TOL, 0), hu.subs(TOL, 0)
+    cl = sp.simplify(hl0 ** 2 * E / X2)
+    cu = sp.simplify(hu0 ** 2 * E / X2)
+    ok_h = cl.is_number and cu.is_number and cl >= 1 and cu >= 1 and hl0.is_positive and hu0.is_positive and bool(widen)
     ctx.ob("BMCI.__find_hits.halfwidth", bool(ok_h), "lower: y_proj - %s, upper: y_proj + %s; h^2 / (x2_max * lambda) = %s, %s" % (hl, hu, cl, cu),
            "symmetric window with h^2 = c * x2_max * lambda_min, c >= 1: |u^T dy| <= sqrt(lambda * chi^2) for the eigenvector u", node=ss[0], func=h)
     # which call carries the lower bound: the one whose half-width is subtracted
